@@ -20,7 +20,7 @@ KNOWN = os.path.join(VERIF, "KNOWN_FINDINGS.txt")
 NCPU = os.cpu_count() or 4
 
 SRC_DIRS = ["include/multitensor", "applications/include", "applications/src"]
-CXXFLAGS = ["-std=c++17", "-O1", "-g", "-fsanitize=address,undefined", "-fno-sanitize-recover=all",
+CXXFLAGS = ["-std=c++17", "-O1", "-g", "-fsanitize=address,undefined,float-cast-overflow", "-fno-sanitize-recover=all",
             "-D_GLIBCXX_ASSERTIONS", "-DMULTITENSOR_VERIF", "-fno-omit-frame-pointer"]
 SAN_ENV = {"ASAN_OPTIONS": "detect_leaks=1:abort_on_error=0:exitcode=77:allocator_may_return_null=1",
            "UBSAN_OPTIONS": "print_stacktrace=1:halt_on_error=1:exitcode=78"}
